@@ -1,7 +1,7 @@
 //! C17: mdat Merkle accumulator and the BMFF placeholder workflow.
 //! kinds:
 //!  {k:"acc", fixed:null|bytes, fixed_kb:null|kb, calls:[[mdat_id, large, hex]..]}
-//!      -> recorded leaves (length, digest) and pending remainders per mdat, index/class of the first failing call
+//!      -> recorded leaves (length, digest), pending remainders and consumed header bytes per mdat, index/class of the first failing call
 //!  {k:"e2e", fixed_kb:null|kb, nleaves:int, mdats:[{large, len, seed, splits:[chunk lengths]}..]}
 //!      -> generated MP4 (ftyp free mdat.. moov), Builder::placeholder / hash_bmff_mdat_bytes / update_hash_from_stream /
 //!         sign_embeddable, manifest patched over the free box, read back: MerkleMaps + validation report
@@ -60,7 +60,13 @@ fn acc(case: &Value) -> Value {
     for id in ids {
         rem.insert(id.to_string(), json!(hexe(&a.fixed_size_remainder[id])));
     }
-    json!({"r": "ok", "leaves": leaves, "rem": rem, "err": first_err, "fixed": a.fixed_size})
+    let mut ids: Vec<&usize> = a.header_skipped.keys().collect();
+    ids.sort();
+    let mut skipped = Map::new();
+    for id in ids {
+        skipped.insert(id.to_string(), json!(a.header_skipped[id]));
+    }
+    json!({"r": "ok", "leaves": leaves, "rem": rem, "skipped": skipped, "err": first_err, "fixed": a.fixed_size})
 }
 
 fn e2e_run(case: &Value) -> Value {
